@@ -54,11 +54,19 @@ def err_only(b, blocks):
     if not blocks:
         return False
     errb = set()
-    for x in blocks:
+    # error exits anywhere in the function: an arm may share its exit (the caller's `?` after an inlined helper's
+    # `return Err(..)`) with other arms; what matters is that it is reached before any return or token consumption
+    for x in sorted(b.reachable()):
         for s in b.blocks[x]["stmts"]:
             if s["k"] == "assign" and s["place"]["l"] == 0 and not s["place"]["p"] and s["rv"]["k"] == "agg" and \
                     s["rv"].get("adt") == "std::result::Result" and s["rv"]["variant"] == "Err":
                 errb.add(x)
+            # the failure of an inlined helper handed on: `_0 = <that Err>` as a pass-through, or the early return of `?`
+            if s["k"] == "assign" and s["place"]["l"] == 0 and not s["place"]["p"] and s["rv"]["k"] == "through" and s["rv"].get("variant") == "Err":
+                errb.add(x)
+        tx = b.blocks[x]["term"]
+        if tx["k"] == "call" and tx["callee"] == "std::ops::FromResidual::from_residual" and tx["dest"]["l"] == 0 and not tx["dest"]["p"]:
+            errb.add(x)
     if not errb:
         return False
     # entry blocks of the arm: those with a predecessor outside the arm
